@@ -630,7 +630,10 @@ class World:
     def call_native_method(self, ex, st, bm, args, kw, line):
         recv = bm.self_val
         name = bm.func.__name__
-        if any(is_sym(x) or isinstance(x, Obj) or hasattr(x, "_symstr") for x in list(args) + list(kw.values())):
+        from .stdlib import KeyedStr
+
+        keyed_format = isinstance(recv, KeyedStr) and name == "format"
+        if keyed_format or any(is_sym(x) or isinstance(x, Obj) or hasattr(x, "_symstr") for x in list(args) + list(kw.values())):
             h = self.stdlib.get(id(bm.func))
             if h is None:
                 raise Unsupported(f"{type(recv).__name__}.{name} with symbolic arguments at line {line}")
@@ -886,9 +889,15 @@ class World:
             r = outs[0] if outs[0] is not None else outs[1]
             ex.dead.append((ex.owner, s.lineno, "then" if outs[0] is None else "else"))
             return [r[0]]
-        # not mergeable: roll back and let the caller fork
-        del ex.obligations[n_obl:]
-        return None
+        # not mergeable: the two arms have been executed exactly as a fork would execute them - hand their
+        # outcomes (and pending raises) on instead of executing them a second time
+        for s_r, e_r in pend:
+            ex.pending_raise(s_r, e_r)
+        res = []
+        for r in outs:
+            if r is not None:
+                res.extend(r)
+        return res
 
     def do_cut(self, ex, cut, stmts, i, st):
         """establish the cut assertion on this path; continue (once) from a state that knows only the entry
